@@ -27,7 +27,7 @@
      defined, it is (e v <> None). *)
 From PV Require Import Lib.Bytes Gen.CondSimpSets Spec.BmakeCond Model.CondSimp
   Proofs.CondSimpA Proofs.CondSimpB Proofs.CondSimpNum Proofs.CondSimpC Proofs.CondSimpWords Proofs.CondSimpD
-  Proofs.CondSimpE Proofs.CondSimpF.
+  Proofs.CondSimpE Proofs.CondSimpF Spec.PrefsFile Model.CondFile Proofs.CondFileA Proofs.CondFileB.
 Open Scope N_scope.
 
 (* ---- the regenerated literals are the ones the model was written against ---- *)
@@ -297,3 +297,105 @@ Theorem C14_tables_fit_the_reader :
   in_set lit_pattern_set 36 = false /\ in_set simple_mod_set 36 = false.
 Proof. exact tables_fit_the_reader. Qed.
 Print Assumptions C14_tables_fit_the_reader.
+
+(* ---- the ':U' decision inside the model: what feeds isDefined while the file is read ---- *)
+(* Model/CondFile.v: loads_prefs (util.go LoadsPrefs with the REGENERATED name table), scan
+   (Tools.ParseToolLine: SeenPrefs; checkLine: vars.Define outside conditional blocks;
+   Indentation), file_ctx (the context MkCondChecker sees after the lines read so far).
+   Spec/PrefsFile.v: prefs_reference (the files that load the user preferences, a committed
+   list) + "below a directory mk"; sure_after (what bmake guarantees after some lines: an
+   include or assignment counts only outside of conditional blocks); possible_env (the
+   environments that can occur at that point: always-defined variables, variables assigned for
+   sure, and -- only if a prefs file has been included for sure -- the variables bsd.prefs.mk
+   defines; everything else may be undefined). *)
+
+(* every basename in LoadsPrefs' table (regenerated from util.go) is a reference file, and the
+   directory it trusts is the reference directory: a widened table breaks this *)
+Theorem C14_loads_prefs_table_within_reference :
+  forallb (fun n => in_strs n prefs_reference) loads_prefs_names = true /\ loads_prefs_dir = infrastructure_dir.
+Proof. exact loads_prefs_table_sound. Qed.
+Print Assumptions C14_loads_prefs_table_within_reference.
+
+(* for ALL paths: LoadsPrefs (path.Base + the table, Path.ContainsPath "mk") says "loads the
+   preferences" only for files that do, by the spec's own reading of the path *)
+Theorem C14_loads_prefs_within_reference : forall p,
+  loads_prefs p = true -> really_loads_prefs p = true.
+Proof. exact loads_prefs_sound. Qed.
+Print Assumptions C14_loads_prefs_within_reference.
+
+(* isDefined is right in the file: for ALL fragments (any lines before the condition) without
+   a prefs include inside a conditional block, ALL declarations that are right about bmake,
+   and ALL environments possible after those lines *)
+Theorem C14_is_defined_sound_in_file : forall decl mmn always by_prefs pre e v,
+  decl_right decl always by_prefs ->
+  conditional_prefs_include sure0 pre = false ->
+  possible_env always by_prefs pre e ->
+  let cx := file_ctx decl mmn (scan (init_state false) pre) in
+  is_defined (cx_seen_prefs cx) (cx_var cx v) = true -> e v <> None.
+Proof. exact is_defined_sound_in_file. Qed.
+Print Assumptions C14_is_defined_sound_in_file.
+
+(* hence: a rewrite offered at the line after [pre] keeps the value (and does not become
+   malformed) under every environment possible there -- "isDefined is right" is no longer a
+   hypothesis.  simplifyWord (:M form), simplifyYesNo, simplifyMatch: *)
+Theorem C14_rewrite_sound_in_file : forall decl mmn always by_prefs pre,
+  decl_right decl always by_prefs ->
+  conditional_prefs_include sure0 pre = false ->
+  let cx := file_ctx decl mmn (scan (init_state false) pre) in
+  (forall v mods fe neg rw e,
+    In rw (simplify_word cx v mods fe neg) ->
+    (exists pat, last mods [] = 77 :: pat) ->
+    possible_env always by_prefs pre e ->
+    exists f t, rw_from_c rw = Some f /\ rw_to_c rw = Some t /\
+      ((forall d s, eval_expr e v (map classify_mod (removelast mods)) = Some (d, s) -> wordlike s) ->
+       preserves e f t)) /\
+  (forall v mods fe neg rw e,
+    In rw (fst (simplify_yesno cx v mods fe neg)) ->
+    possible_env always by_prefs pre e ->
+    exists f t, rw_from_c rw = Some f /\ rw_to_c rw = Some t /\
+      ((vi_nonempty_if_defined (decl v) = true -> e v <> Some []) ->
+       (forall d s, eval_expr e v (map classify_mod (removelast mods)) = Some (d, s) -> wordlike s) ->
+       preserves e f t)) /\
+  (forall v mods fe neg rw e,
+    In rw (simplify_match cx v mods fe neg) ->
+    possible_env always by_prefs pre e ->
+    exists f t pat, rw_from_c rw = Some f /\ rw_to_c rw = Some t /\ last mods [] = 77 :: pat /\
+      (forall d s, eval_expr e v (map classify_mod (removelast mods)) = Some (d, s) ->
+         clean s ->
+         (mmn pat <> MmnYes ->
+          forall w, w <> [] -> wordlike w -> str_match w pat = true -> try_parse_number w = None) ->
+         equivalent e f t)).
+Proof.
+  exact (fun decl mmn always by_prefs pre Hd Hc =>
+    conj (word_M_sound_in_file decl mmn always by_prefs pre Hd Hc)
+      (conj (yesno_sound_in_file decl mmn always by_prefs pre Hd Hc)
+            (match_sound_in_file decl mmn always by_prefs pre Hd Hc))).
+Qed.
+Print Assumptions C14_rewrite_sound_in_file.
+
+(* without the guard "no prefs include inside a conditional block" the statement is false of
+   the faithful model (a genuine defect, known finding C14/*/undefined/conditional-include):
+   .if defined(OTHER) / .include "bsd.prefs.mk" / .endif / .if !empty(V:Malpha)  ->  ${V} == alpha,
+   V undefined: false -> malformed *)
+Theorem C14_rewrite_sound_in_file_refuted : ~ word_in_file_full.
+Proof. exact word_in_file_full_refuted. Qed.
+Print Assumptions C14_rewrite_sound_in_file_refuted.
+
+(* the hypotheses are satisfiable, the theorem is not vacuous: after an unconditional include of
+   bsd.prefs.mk SeenPrefs is set, the spec agrees, ':U' is dropped and the value is kept *)
+Example C14_in_file_example :
+  conditional_prefs_include sure0 ex_sure_pre = false /\
+  su_prefs (sure_after ex_sure_pre) = true /\
+  fs_seen_prefs (scan (init_state false) ex_sure_pre) = true /\
+  (exists rw f t,
+    simplify_word (file_ctx ex_decl_P ex_mmn (scan (init_state false) ex_sure_pre)) ex_var ex_Malpha_mods true true = [rw] /\
+    rw_from_c rw = Some f /\ rw_to_c rw = Some t /\
+    eval (env1 ex_var (Some ex_alpha)) f = Some TTrue /\ eval (env1 ex_var (Some ex_alpha)) t = Some TTrue).
+Proof. exact in_file_example. Qed.
+
+Example C14_near_misses_do_not_load :
+  forallb (fun p => negb (loads_prefs p))
+    [[46; 46; 47; 46; 46; 47; 100; 47; 108; 47; 98; 117; 105; 108; 100; 108; 105; 110; 107; 51; 46; 109; 107];
+     [46; 46; 47; 46; 46; 47; 100; 47; 108; 47; 98; 117; 105; 108; 116; 105; 110; 46; 109; 107];
+     [77; 97; 107; 101; 102; 105; 108; 101; 46; 99; 111; 109; 109; 111; 110]] = true.
+Proof. exact near_misses_do_not_load. Qed.
